@@ -7,6 +7,7 @@ creates the style): private attributes are read, and "pending style kwargs" and
 """
 from __future__ import annotations
 
+import functools
 import types
 
 import numpy as np
@@ -63,6 +64,9 @@ def enc(x, index_of, depth=0):
         return {"magic:" + type(x).__name__: {k: enc(v, index_of, depth + 1) for k, v in sorted(vars(x).items())}}
     if isinstance(x, Opaque):
         return ["opaque", x.token]
+    if isinstance(x, functools.partial):
+        return ["partial", enc(x.func, index_of, depth + 1), enc(list(x.args), index_of, depth + 1),
+                enc(dict(x.keywords), index_of, depth + 1)]
     if isinstance(x, (types.FunctionType, types.BuiltinFunctionType)):
         return ["fn", getattr(x, "__module__", None), getattr(x, "__qualname__", repr(type(x)))]
     if isinstance(x, types.MethodType):
